@@ -168,6 +168,8 @@ def run(tier):
             pos = g.r.randint(0, len(keys))
             keys[pos:pos] = pair if g.r.random() < 0.5 else pair[::-1]
         cfg = {"abbr": True, "endvalues": False, "hcons": [], "args": [], "lenient": True}
+        # flags of the group object itself (passed on to every member): none in half of the tables
+        cfg["grpflags"] = [] if g.r.random() < 0.5 else g.r.sample(["listgroups", "listgroups", "verbose", "usagehidden"], g.r.randint(1, 3))
         for n_, (s, l) in enumerate(keys):
             a = arggen.new_arg("int"); a["s"], a["l"], a["init"], a["grp"] = s, l, -(n_ + 1), g.r.randrange(3)
             a["card"] = {"t": "none", "a": 0, "b": 0}
@@ -196,6 +198,7 @@ def run(tier):
         seq += [(fill.pop(), "int", r_.choice([0, 1, 1])) for _ in range(r_.randint(0, 2))]
         swap = r_.random() < 0.5                        # which member is created first
         cfg = {"abbr": True, "endvalues": False, "hcons": [], "args": [], "lenient": True}
+        cfg["grpflags"] = [] if r_.random() < 0.5 else r_.sample(["listgroups", "listgroups", "verbose", "usagehidden"], r_.randint(1, 3))
         for n_, ((s_, l_), kind, grp) in enumerate(seq):
             a = arggen.new_arg("int"); a["s"], a["l"], a["init"], a["grp"] = s_, l_, -(n_ + 1), (1 - grp) if swap else grp
             a["card"] = {"t": "none", "a": 0, "b": 0}
